@@ -20,6 +20,7 @@ type SpecEnv struct {
 	lemma    *Lemma
 	header   *ssa.BasicBlock
 	depth    int
+	specPkg  string
 }
 
 func (fr *Frame) newEnv() *SpecEnv {
@@ -515,6 +516,11 @@ func (e *SpecEnv) findSpec(name string) *SpecFn {
 		}
 	}
 	w := e.fr.x.w
+	if e.specPkg != "" {
+		if s := w.cs.pkgSpecs[e.specPkg][name]; s != nil {
+			return s
+		}
+	}
 	if e.contract != nil {
 		if s := w.cs.pkgSpecs[e.contract.Pkg][name]; s != nil {
 			return s
@@ -719,6 +725,15 @@ func (e *SpecEnv) applySpec(s *SpecFn, args []*Node) *SVal {
 		n.vars[p] = e.eval(args[i])
 	}
 	n.depth = e.depth + 1
+	// names inside the body resolve in the spec's home package
+	if s.Pkg != "" && (e.pkg == nil || shortPkg(e.pkg.Pkg.Path()) != s.Pkg) {
+		for _, p := range e.fr.x.w.prog.AllPackages() {
+			if shortPkg(p.Pkg.Path()) == s.Pkg {
+				n.pkg = p
+			}
+		}
+		n.specPkg = s.Pkg
+	}
 	return n.eval(s.Body)
 }
 
@@ -931,11 +946,17 @@ func (e *SpecEnv) sum(args []*Node) *SVal {
 		hm1 = sBig(new(big.Int).Sub(v, big.NewInt(1)))
 	}
 	inst := "unf|" + s + "|" + hi
-	if !x.sumInst[inst] {
+	if !x.sumInst[inst] && !strings.Contains(hi, "!q") && !strings.Contains(body, "!q") && !strings.Contains(lo, "!q") {
 		x.sumInst[inst] = true
 		x.em.Assert(sImp(sLt(lo, hi), sEq(sApp(s, hi), sAdd(sApp(s, hm1), at(hm1)))))
 		if nonneg {
 			x.em.Assert(sImp(sLt(lo, hi), sLe("0", at(hm1))))
+		}
+		// one step ahead: S(hi+1) = S(hi) + T(hi) (used on loop-exit paths inside the body)
+		if _, lit := isIntLit(hi); !lit && !strings.Contains(hi, "!q") {
+			hp1 := sAdd(hi, "1")
+			x.sumInst["unf|"+s+"|"+hp1] = true
+			x.em.Assert(sImp(sLe(lo, hi), sEq(sApp(s, hp1), sAdd(sApp(s, hi), at(hi)))))
 		}
 	}
 	return intVal(sApp(s, hi))
